@@ -49,9 +49,17 @@ TG_CALLS = [('Tg', 'ab', 0, True, (1,)), ('Tg', 'ab', 0, True, (True,)), ('Tg', 
             ('Tg', 'b', 0, True, ([True],))]
 
 
-def fails_grammar():
-    """an unrelated grammar full of `... | Fail(message)` choices of different widths (its expression ids are dense)"""
-    rows = []
+# calls made on a module compiled in the middle of a history: the scenario calls and texts that fail at many different
+# expressions of the grammar (the report names the expression; outcomes are compared including the message)
+FRESH_CALLS = CALLS + [(None, t, 0, True) for t in ('', ':', 'a:', '-', '- ', '-:', 'a:b:', 'q', 'a q', 'a:-', '-a:', 'a\n:', 'a:b -', 'ab !')] + [
+    ('W', '', 0, True), ('W', 'q', 0, True), ('Pair', 'a', 0, True), ('Pair', 'a:', 0, True), ('Pair', ':', 0, True),
+    ('Acc', 'q', 0, True), ('Tg', 'q', 0, True, (1,)), ('Tg', '', 0, True, (1,))]
+
+
+def fails_grammar(shift=0, odd=False):
+    """an unrelated grammar full of `... | Fail(message)` choices of different widths; `shift` / `odd` put rules in front so
+    that over the variants the Fail expressions take every expression number from 6 up"""
+    rows = ['D%d = "d"' % i for i in range(shift)] + (['Dq = "d"?'] if odd else [])
     for k in range(48):
         real = ' | '.join('"%s%d"' % ('pqrs'[i], k) for i in range(1 + k % 4))
         rows.append('R%d = %s | Fail("expected item %d")' % (k, real, k))
@@ -105,8 +113,8 @@ def baseline():
     base['raise'] = outcome(build(), CALLS[0], raising=True)
     for i, c in enumerate(TG_CALLS):
         base[('tg', i)] = outcome(build(), c)
-    b = impl.build(DESC % {'head': ''}, include_source=True)
-    base['source'] = b[1]._source_code
+    g = build()
+    base['fresh'] = [outcome(g, c) for c in FRESH_CALLS]
     # the derived grammar, used alone right after it was built on a fresh base
     for variant in ('v1', 'v2'):
         for j, t in enumerate(CHILD_TEXTS):
@@ -218,26 +226,25 @@ def history_job_(job, st):
                         got = outcome(g, TG_CALLS[op[1]])
                         exp = base[('tg', op[1])]
                     elif op[0] == 'build-fails':
-                        b = impl.build(fails_grammar())
                         got = exp = None
-                        if b[0] != 'OK':
-                            got, exp = b, 'module'
+                        for shift in range(4):
+                            for odd in (False, True):
+                                b = impl.build(fails_grammar(shift, odd))
+                                if b[0] != 'OK':
+                                    got, exp = b, 'module'
                     elif op[0] == 'build-rejected':
                         b = impl.build(REJECTED[op[1]] % {'uid': uid})
                         got = exp = None
                         if b[0] == 'OK':
                             got, exp = 'module', 'rejected description'
                     elif op[0] == 'fresh-build':
-                        # the scenario description compiled again now: same generated text, same failure report
-                        b = impl.build(DESC % {'head': ''}, include_source=True)
+                        # the scenario description compiled again now: same outcomes (incl. failure reports) as on a module compiled first
+                        b = impl.build(DESC % {'head': ''})
                         if b[0] != 'OK':
                             got, exp = b, 'module'
-                        elif b[1]._source_code != base['source']:
-                            s1, s2 = base['source'], b[1]._source_code
-                            d = next((i for i, (x, y) in enumerate(zip(s1, s2)) if x != y), min(len(s1), len(s2)))
-                            got, exp = ('generated text differs', s2[max(0, d - 40):d + 60]), ('generated text', s1[max(0, d - 40):d + 60])
                         else:
-                            got, exp = outcome(b[1], CALLS[1]), base[1]
+                            got, exp = [outcome(b[1], c) for c in FRESH_CALLS], base['fresh']
+                            res['ctr']['cases'] += len(FRESH_CALLS) - 1
                     elif op[0] == 'build-other':
                         b = impl.build(OTHER)
                         got = exp = None
@@ -672,7 +679,7 @@ def run(tier, seed):
     chk.rule = ('one grammar (classes, ignore, template, inline-Python callback, error paths): (i) ALL histories of length <= 3 (thorough 4) '
                 'over 18 operations (9 parse calls with different texts / offsets / entry rules / fullparse, a call abandoned by a raising '
                 'callback, building another grammar, building a grammar that reuses the name, building a grammar that extends it and adds an ignore, 3 calls through that derived grammar), each '
-                'replayed on a freshly built module, all histories of length <= 5 (6) over the 5 operations that build, rebuild under the same name and use grammars, all histories of length <= 3 (5; compilations 4) over 7 operations around a parameterised class entry requested with equal but distinguishable arguments (1, True, 1.0, [1], [True]) and over 9 operations around compilations (a grammar full of `| Fail()` choices, 4 rejected descriptions, the scenario description compiled again: same generated text and failure report; interpreter settings unchanged after every operation), plus all histories of length <= 4 (5) over 6 calls through a base grammar without ignore and a derived grammar with one; (ii) ALL thread interleavings with <= 1 preemption of every pair of 8 call bodies (incl. '
+                'replayed on a freshly built module, all histories of length <= 5 (6) over the 5 operations that build, rebuild under the same name and use grammars, all histories of length <= 3 (5; compilations 4) over 7 operations around a parameterised class entry requested with equal but distinguishable arguments (1, True, 1.0, [1], [True]) and over 9 operations around compilations (a grammar full of `| Fail()` choices, 4 rejected descriptions, the scenario description compiled again and called 31 times, 24 of them failing at different expressions: same outcomes incl. the failure report; interpreter settings unchanged after every operation), plus all histories of length <= 4 (5) over 6 calls through a base grammar without ignore and a derived grammar with one; (ii) ALL thread interleavings with <= 1 preemption of every pair of 8 call bodies (incl. '
                 'failing and raising ones) and of a parse against a concurrent Grammar() construction, <= 2 preemptions on reduced pairs '
                 '(thorough: 3 threads, opcode granularity), scheduling points = line events of the generated module under a baton '
                 'scheduler; (iii) EVERY single deviation (nested parse discarded / embedded x 7 calls, raise) at every inline-Python '
